@@ -2,3 +2,4 @@
 from . import eff  # noqa: F401
 from . import exc  # noqa: F401
 from . import ctxm  # noqa: F401
+from . import val  # noqa: F401
